@@ -1,6 +1,7 @@
 // C09 harness: save / reset / load transparency on the real engine (ASan, injected clock).
 //
-//   case <id> <mode> K=<all|none|k1,k2,..> [H=<host flags>]
+//   case <id> <mode> K=<all|none|k1,k2,..> [H=<host flags>] [Z]
+//     Z (mode M): every generated script file ends without its last `end` (EOF ends the last block)
 //     host flags (what the host puts into the archive besides director.Archive; default lrq):
 //       l = ArchiveObject(level) and ArchiveObject(game)   q = the event queue
 //       r = the entities named by E ops are archived, deleted at the reset and re-created from the
@@ -79,6 +80,7 @@
 #include <morfuse/Script/TargetList.h>
 #include <morfuse/Script/EventQueue.h>
 #include <morfuse/Script/timer.h>
+#include <morfuse/Script/ScriptOpcodes.h>
 #undef private
 #undef protected
 using namespace mfuse;
@@ -265,7 +267,7 @@ static std::vector<std::string> parseBlock(std::istringstream& is, Gen& g)
     return st;
 }
 
-static std::string programText(const std::string& prog)
+static std::string programText(const std::string& prog, bool noTrailingEnd = false)
 {
     Gen g;
     std::istringstream is(prog);
@@ -274,6 +276,9 @@ static std::string programText(const std::string& prog)
     for (auto& s : main) src += s + "\n";
     src += "end\n";
     for (auto& b : g.blocks) src += b;
+    // header word Z: the file ends without `end` (the OP_DONE the compiler appends at EOF ends the
+    // last block): a thread whose last statement is a wait sleeps on the very last opcode of the file
+    if (noTrailingEnd && src.size() >= 4 && src.compare(src.size() - 4, 4, "end\n") == 0) src.erase(src.size() - 4);
     return src;
 }
 
@@ -299,7 +304,7 @@ static Layout layoutOf(const std::string& src)
 }
 
 // ------------------------------------------------------------------ one run
-struct Options { bool level = true, ents = false, queue = true, recreate = true, fresh = false; };
+struct Options { bool level = true, ents = false, queue = true, recreate = true, fresh = false, noTrailingEnd = false; };
 
 struct Run {
     std::unique_ptr<vh::Engine> ep{new vh::Engine()};
@@ -448,7 +453,8 @@ struct Run {
                     if (it != layouts.end() && scr->GetSourceAt(off, line, col, ln)) {
                         auto r = it->second.remAtLine.find((int)ln);
                         pos = r != it->second.remAtLine.end() ? "rem" + std::to_string(r->second) : "line" + std::to_string(ln);
-                    } else pos = "off" + std::to_string(off);
+                    } else if (off < scr->GetProgLength() && *vm->m_CodePos == OP_DONE) pos = "rem0";     // the OP_DONE appended at EOF (no source line)
+                    else pos = "off" + std::to_string(off);
                 }
                 if (tj > 1) s += " ";
                 s += std::string("T(") + st + "," + pos + "," + fmtVars(t, num) + ")";
@@ -505,7 +511,7 @@ struct Run {
             try {
                 if (c == "P") {
                     std::string rest; std::getline(is, rest);
-                    const std::string src = programText(rest);
+                    const std::string src = programText(rest, opt.noTrailingEnd);
                     const std::string name = "p" + std::to_string(nextProg++);
                     layouts[name] = layoutOf(src);
                     const ProgramScript* scr = ep->compile(name, src);
@@ -565,7 +571,8 @@ int main()
         Options opt;
         hs >> mode;
         while (hs >> w) {
-            if (w.rfind("K=", 0) == 0) kspec = w.substr(2);
+            if (w == "Z") opt.noTrailingEnd = true;
+            else if (w.rfind("K=", 0) == 0) kspec = w.substr(2);
             else if (w.rfind("H=", 0) == 0) { std::string f = w.substr(2); opt.level = f.find('l') != std::string::npos; opt.ents = f.find('e') != std::string::npos; opt.queue = f.find('q') != std::string::npos; opt.recreate = f.find('r') != std::string::npos; opt.fresh = f.find('n') != std::string::npos; }
         }
         const bool modeM = mode == "M";
